@@ -199,8 +199,19 @@ func (e *ParserData) NamePush(test string) {
 	e.varnameStack = append(e.varnameStack, test)
 }
 
+// stackErr 解析辅助栈为空时(来自被放弃的语法分支留下的不配对操作)记录错误，由 Parse 返回，而不是越界崩溃
+func (e *ParserData) stackErr() {
+	if e.codeErr == nil {
+		e.codeErr = errors.New("E2:语法解析失败，表达式不完整")
+	}
+}
+
 func (e *ParserData) NamePop() string {
 	last := len(e.varnameStack) - 1
+	if last < 0 {
+		e.stackErr()
+		return ""
+	}
 	val := e.varnameStack[last]
 	e.varnameStack = e.varnameStack[:last]
 	return val
@@ -229,6 +240,10 @@ func (p *ParserData) ContinueSet(offsetB int) {
 		info := p.loopInfo[len(p.loopInfo)-1]
 		for _, codeIndex := range p.continueStack[info.continueIndex:] {
 			lastB := len(p.jmpStack) - 1 - offsetB
+			if lastB < 0 {
+				p.stackErr()
+				return
+			}
 			jmpIndex := p.jmpStack[lastB]
 			// 试出来的，这个是对的，那么也许while那个是错的？？还是说因为while最后多push了一个jmp呢？
 			p.code[codeIndex].Value = -(IntType(codeIndex) - jmpIndex)
@@ -261,6 +276,13 @@ func (p *ParserData) BreakPush() error {
 
 func (e *ParserData) OffsetPopAndSet() {
 	last := len(e.jmpStack) - 1
+	if last < 0 || e.jmpStack[last] < 0 || int(e.jmpStack[last]) >= len(e.code) {
+		e.stackErr()
+		if last >= 0 {
+			e.jmpStack = e.jmpStack[:last]
+		}
+		return
+	}
 	codeIndex := e.jmpStack[last]
 	e.jmpStack = e.jmpStack[:last]
 	e.code[codeIndex].Value = IntType(IntType(e.codeIndex) - codeIndex - 1)
@@ -269,12 +291,20 @@ func (e *ParserData) OffsetPopAndSet() {
 
 func (e *ParserData) OffsetPopN(num int) {
 	last := len(e.jmpStack) - num
+	if last < 0 {
+		e.stackErr()
+		last = 0
+	}
 	e.jmpStack = e.jmpStack[:last]
 }
 
 func (e *ParserData) OffsetJmpSetX(offsetA int, offsetB int, rev bool) {
 	lastA := len(e.jmpStack) - 1 - offsetA
 	lastB := len(e.jmpStack) - 1 - offsetB
+	if lastA < 0 || lastB < 0 || e.jmpStack[lastA] < 0 || int(e.jmpStack[lastA]) >= len(e.code) {
+		e.stackErr()
+		return
+	}
 
 	codeIndex := e.jmpStack[lastA]
 	jmpIndex := e.jmpStack[lastB]
@@ -299,6 +329,10 @@ func (e *ParserData) CounterAdd(offset IntType) {
 
 func (e *ParserData) CounterPop() IntType {
 	last := len(e.counterStack) - 1
+	if last < 0 {
+		e.stackErr()
+		return 0
+	}
 	num := e.counterStack[last]
 	e.counterStack = e.counterStack[:last]
 	return num
@@ -310,6 +344,10 @@ func (e *ParserData) FlagsPush() {
 
 func (e *ParserData) FlagsPop() {
 	last := len(e.flagsStack) - 1
+	if last < 0 {
+		e.stackErr()
+		return
+	}
 	e.Config = e.flagsStack[last]
 	e.flagsStack = e.flagsStack[:last]
 }
@@ -414,6 +452,10 @@ func (p *ParserData) CodePop() ([]ByteCode, int, int) {
 	lastCode, lastIndex := p.code, p.codeIndex
 
 	last := len(p.codeStack) - 1
+	if last < 0 {
+		p.stackErr()
+		return lastCode, lastIndex, 0
+	}
 	info := p.codeStack[last]
 	p.codeStack = p.codeStack[:last]
 	p.code = info.code
